@@ -38,7 +38,7 @@ def run(chk: Check):
     traces = [L.symbolic_trace(rng) for _ in range(300 if chk.quick else 5000)]
     for nm in L.FAMILY:
         for _ in range(1 if chk.quick else 6):
-            traces.append(L.numeric_trace(rng, nm, nassign=3 if chk.quick else 6))
+            traces.append(L.numeric_trace(rng, nm, nassign=4 if chk.quick else 8))
 
     def nontrivial(t):
         if "family" in t["hdr"]:
